@@ -176,9 +176,19 @@ class C18Episode(Episode):
         died_meanwhile = set()
         def fault_dead(q):
             return (not q.alive) and not str(q.death_cause).startswith('sup:')
+        me = kk.getpid_value
         for p in (ref['target'] or ()):
-            root = self.root_of(p)
-            if fault_dead(kk.procs[p]) or root is None or fault_dead(root):
+            # (an orphan is no descendant any more: any ancestor counts)
+            q, n, gone = kk.procs.get(p), 0, False
+            while q is not None and n < 50:
+                if fault_dead(q):
+                    gone = True
+                    break
+                if q.orig_parent == me:
+                    break
+                q = kk.procs.get(q.orig_parent)
+                n += 1
+            if gone or q is None:
                 died_meanwhile.add(p)
         self.probes['%s_%s' % (r.cmd, ref['cls'])] += 1
         if refused:
@@ -224,13 +234,15 @@ class C18Episode(Episode):
             sig = ref['val'] if ref['cls'] == 'canonical' else None
             touched = set(self.root_of(p).pid for (p, s) in delivered
                           if self.root_of(p) is not None)
+            # (the worker itself, not only something below it)
+            direct = set(p for (p, s) in delivered)
             extra = touched - ref['target']
             if extra:
                 self.viol('kill_touched_unaddressed_worker',
                           'kill %r: addressed %s, signalled %s' %
                           (pr, sorted(ref['target']), sorted(touched)),
                           once=r.idx, pid_given=repr(pr.get('pid')))
-            missing = [p for p in ref['target'] if p not in touched
+            missing = [p for p in ref['target'] if p not in direct
                        and p not in died_meanwhile
                        and ref['cls'] in ('canonical', 'absent')
                        and not getattr(self.watcher_obj(pr['name'])
@@ -484,6 +496,12 @@ class C18(Prop):
                     props['signum'] = gen_designation(rng)
                 if rng.random() < 0.4:
                     props['graceful_timeout'] = rng.choice([0, 0.1, 0.3])
+                if rng.random() < 0.25:
+                    # a child of one of the workers disappears while the
+                    # request is being carried out
+                    ops.append({'op': 'die', 'w': w, 'j': rng.randrange(3),
+                                'child': rng.randrange(2), 'how': 'kill',
+                                'place': {'calls': rng.randrange(1, 14)}})
                 ops.append({'op': 'req', 'cmd': 'kill', 'w': w,
                             'props': props,
                             'waiting': rng.random() < 0.5, 'place': 'now',
